@@ -11,7 +11,7 @@ m = {
     "hooks": {
         "guard": "verif",
         "enable": "no hook is committed to /repo: harness shims (/verif/shims/<pkg>/zz_verif_shim.go, add-only exported accessors) are injected into existing package directories with go/packages Overlay and `go test -overlay`; the build tag `verif` is reserved",
-        "baseline_off_cmd": "cd /repo && cp go.mod /tmp/verif-base.mod && cp go.sum /tmp/verif-base.sum && GOFLAGS=-mod=mod GOPROXY=off GOSUMDB=off go test -modfile=/tmp/verif-base.mod -vet=off -count=1 -timeout 25m ./... ; rc=$?; rm -f /tmp/verif-base.mod /tmp/verif-base.sum; exit $rc",
+        "baseline_off_cmd": "sh /verif/tools/repotest.sh",
         "source_commits": [],
         "add_only": True,
     },
